@@ -9,6 +9,8 @@ Ev == Traces[tid][l]
 ClassObsOK(o, CC2, CT2) ==
     /\ o.comps = CC2[o.cls] /\ o.len = Len(CC2[o.cls]) /\ o.tag = CT2[o.cls]
     /\ \A k \in 1..Len(o.contains) : o.contains[k][2] = HasT(CC2[o.cls], o.contains[k][1])
+    \* templates of several types: has_class_component(T1, .., Tn) holds iff every listed type is attached (TRUE for none listed)
+    /\ \A k \in 1..Len(o.hasall) : o.hasall[k][2] = (\A j \in 1..Len(o.hasall[k][1]) : HasT(CC2[o.cls], o.hasall[k][1][j]))
     /\ \A k \in 1..Len(o.get) :          \* Cls[T] / get_class_component(T): the serial of the component, 0 for None
           LET T == o.get[k][1] IN
           o.get[k][2] = IF HasT(CC2[o.cls], T) THEN (CHOOSE c \in {CC2[o.cls][i] : i \in 1..Len(CC2[o.cls])} : c[1] = T)[2] ELSE 0
@@ -20,6 +22,8 @@ ObsOK(obs, CC2, CT2, I2) ==
     /\ \A i \in 1..Len(I2) : obs.inst[i].tag \in {I2[i].tag, -98} /\ obs.inst[i].comps = I2[i].comps /\ obs.inst[i].cls = I2[i].cls
     \* the instance-level API (agent[T], get_component, has_component, len, in): growth beyond C20's claim, same definitions
     /\ \A i \in 1..Len(I2) : I2[i].cls # "Environment" => obs.inst[i].len = Len(I2[i].comps)   \* len(environment) counts its agents
+    /\ \A i \in 1..Len(I2) : \A k \in 1..Len(obs.inst[i].hasall) :         \* has_component(T1, .., Tn)
+          obs.inst[i].hasall[k][2] = (\A j \in 1..Len(obs.inst[i].hasall[k][1]) : HasT(I2[i].comps, obs.inst[i].hasall[k][1][j]))
     /\ \A i \in 1..Len(I2) : \A k \in 1..Len(obs.inst[i].api) :
           LET T == obs.inst[i].api[k][1]  has == HasT(I2[i].comps, T) IN
           /\ obs.inst[i].api[k][2] = has                                   \* T in agent, has_component(T)
